@@ -81,6 +81,20 @@ pub fn rsa2048<R: Rng + CryptoRng>(rng: R) -> SignedSecretKey {
     generic(rng, KeyVersion::V4, KeyType::Rsa(2048), KeyType::Rsa(2048), "Verif rsa <rsa@example.org>")
 }
 
+/// DSA 2048/256 primary (q = 256 bits: digests shorter and longer than q both occur), ECDH subkey
+pub fn dsa2048_ecdh<R: Rng + CryptoRng>(rng: R) -> SignedSecretKey {
+    generic(rng, KeyVersion::V4, KeyType::Dsa(pgp::composed::DsaKeySize::B2048), KeyType::ECDH(pgp::crypto::ecc_curve::ECCCurve::Curve25519Legacy), "Verif dsa <dsa@example.org>")
+}
+
+/// ECDSA P-384 / P-521 primaries (field size differs from the common digest sizes)
+pub fn ecdsa_p384_ecdh<R: Rng + CryptoRng>(rng: R) -> SignedSecretKey {
+    generic(rng, KeyVersion::V4, KeyType::ECDSA(pgp::crypto::ecc_curve::ECCCurve::P384), KeyType::ECDH(pgp::crypto::ecc_curve::ECCCurve::P384), "Verif p384 <p384@example.org>")
+}
+
+pub fn ecdsa_p521_ecdh<R: Rng + CryptoRng>(rng: R) -> SignedSecretKey {
+    generic(rng, KeyVersion::V4, KeyType::ECDSA(pgp::crypto::ecc_curve::ECCCurve::P521), KeyType::ECDH(pgp::crypto::ecc_curve::ECCCurve::P521), "Verif p521 <p521@example.org>")
+}
+
 pub fn ed448_x448<R: Rng + CryptoRng>(rng: R) -> SignedSecretKey {
     generic(rng, KeyVersion::V6, KeyType::Ed448, KeyType::X448, "Verif 448 <x448@example.org>")
 }
